@@ -127,6 +127,19 @@ def main():
                             allowed = now == before or now == after
                         if not allowed:
                             bad = "partial-change"
+                            if op[0] == "setstate":
+                                # (recorded finding F26: the container is emptied) -- it must at least be sound and usable
+                                try:
+                                    if kind in ("BTree", "TreeSet"):
+                                        t._check()
+                                    for x in (91, 93, 95, 97, 99, 101, 103):
+                                        t.add(km.k(x)) if kind in ("Set", "TreeSet") else t.__setitem__(km.k(x), vm.v(3))
+                                    list(t)
+                                    t.clear()
+                                except AssertionError as e:
+                                    bad = "unsound-after-failed-setstate:" + str(e)[:40]
+                                except Exception as e:  # noqa
+                                    bad = "unusable-after-failed-setstate:" + type(e).__name__
                         elif op[0] != "setstate" and any(a < b for a, b in zip([sys.getrefcount(o) for o in objs], rc_before)):
                             # a DROP only: a completed split legitimately adds a reference (the key becomes a separator)
                             # (every object stored before is still stored: no operation but __setstate__ removes one)
